@@ -19,6 +19,7 @@ MaxFiles == EnvInt("VERIF_FILES", 1)
 DirMode  == EnvInt("VERIF_DIR", 0)       \* 0 single files only, 1 directories only, 2 both
 Big      == EnvInt("VERIF_BIG", 0)       \* 1: shapes with one block of B full chunks (three chunk levels with real constants)
 MaxPat   == EnvInt("VERIF_PAT", 3)
+MaxAlias == EnvInt("VERIF_ALIASES", 2)   \* further paths for already linked files
 EncMode  == EnvInt("VERIF_ENC", 2)       \* 0 plain only, 1 encrypted only, 2 both
 
 Cids == {1, 2}
@@ -38,7 +39,7 @@ PathPool == {p \in UNION {[1..n -> Letters] : n \in 1..4} : FileLike(p)}
 GInit == /\ enc \in (IF EncMode = 0 THEN {FALSE} ELSE IF EncMode = 1 THEN {TRUE} ELSE BOOLEAN)
          /\ dir \in (IF DirMode = 0 THEN {FALSE} ELSE IF DirMode = 1 THEN {TRUE} ELSE BOOLEAN)
          /\ k \in 1..MaxFiles /\ (~dir => k = 1)
-         /\ x \in 0..2 /\ (~dir => x = 0)
+         /\ x \in 0..MaxAlias /\ (~dir => x = 0)
          /\ rootmeta \in BOOLEAN /\ (~dir => rootmeta = FALSE)
          /\ files = <<>> /\ entries = <<>> /\ done = FALSE
 
